@@ -10,6 +10,13 @@
 (*  files  : every directory / file script up to FilesLen (duplicate names, *)
 (*           same name in another directory, info overwrite) x string form *)
 (*           x optional-field flags, followed by two rows;                 *)
+(*  mixed  : the program written on behalf of a unit whose encoding has     *)
+(*           another version / format (LineProgram::write's `encoding`     *)
+(*           argument): every unit version 2..5 x format 32/64 per tuple,  *)
+(*           with rows that switch file back and forth (DW_LNS_set_file is *)
+(*           1-based up to program version 4, whatever the unit's version);*)
+(*           write must refuse only a version >= 5 program under a unit    *)
+(*           of version < 5;                                               *)
 (*  script : every call script up to ScriptLen over a small alphabet of    *)
 (*           builder calls (begin_sequence / set_address / row mutations + *)
 (*           generate_row / end_sequence) through the builder machine:     *)
@@ -176,7 +183,32 @@ InvFiles == s # <<>> =>
                              calls |-> s.calls \o RowCalls(P),
                              exp |-> [dirs |-> FM.dirs, files |-> FM.files, rows |-> RowsOfMeaning(FilesRows(P).rows)]])>>)
 
+(*------------------------------------------------------------------------*)
+(* mixed: s = <<>> | [uenc |-> [ver, fmt]]; a fixed script with two file    *)
+(* switches.  The unit's encoding has no influence on the meaning.          *)
+MixedCalls(P) ==
+    LET B0 == BInit(P)
+        r1 == Mut(P, B0, 4)                         \* other file, all flags, discriminator
+        B1 == GenerateRow(P, SetRow(B0, r1))
+        r2 == Mut(P, B1, 2)
+        B2 == GenerateRow(P, SetRow(B1, r2))
+        r3 == [Mut(P, B2, 4) EXCEPT !.off = @ + 3 * P.mil]   \* back to the first file
+    IN << <<"begin", <<BaseAddr>>>>, <<"row", r1>>, <<"row", r2>>, <<"row", r3>>, <<"end", r3.off + P.mil>> >>
+RECURSIVE ApplyCalls(_, _, _, _)
+ApplyCalls(P, B, cs, k) == IF k > Len(cs) THEN B ELSE ApplyCalls(P, ApplyCall(P, B, cs[k]), cs, k + 1)
+WriteAccepts(P, u) == ~(u.ver < 5 /\ P.ver >= 5)      \* LineProgram::write: IncompatibleLineProgramEncoding
+InitMixed == t \in 1..Len(PT) /\ s = <<>>      \* all tuples in every tier (program versions 2, 3, 4, 5)
+NextMixed == UNCHANGED <<m, t>> /\ s = <<>> /\ \E v \in 2..5 : \E f \in {32, 64} : s' = [uenc |-> [ver |-> v, fmt |-> f]]
+InvMixed == s # <<>> =>
+    \E P \in {PT[t]} : \E cs \in {MixedCalls(PT[t])} : \E B \in {ApplyCalls(PT[t], BInit(PT[t]), cs, 1)} :
+    \E D \in {StdRun(HeaderOf(P), AsList(B.ins))} :
+    /\ D.wf /\ SameRows(D.rows, RowsOfMeaning(B.rows))
+    /\ PrintT(<<"CASE", ToJson([sys |-> "mixed", P |-> P, uenc |-> s.uenc, calls |-> cs,
+                                exp |-> [rows |-> RowsOfMeaning(B.rows), ins |-> B.ins, modelok |-> TRUE,
+                                         refuse |-> ~WriteAccepts(P, s.uenc)]])>>)
+
 Init == \E md \in Modes : m = md /\ CASE md = "grid" -> InitGrid [] md = "script" -> InitScript [] md = "files" -> InitFiles
-Next == CASE m = "grid" -> NextGrid [] m = "script" -> NextScript [] m = "files" -> NextFiles
-Inv == CASE m = "grid" -> InvGrid [] m = "script" -> InvScript [] m = "files" -> InvFiles
+                                          [] md = "mixed" -> InitMixed
+Next == CASE m = "grid" -> NextGrid [] m = "script" -> NextScript [] m = "files" -> NextFiles [] m = "mixed" -> NextMixed
+Inv == CASE m = "grid" -> InvGrid [] m = "script" -> InvScript [] m = "files" -> InvFiles [] m = "mixed" -> InvMixed
 =============================================================================
